@@ -261,6 +261,45 @@ pub fn check(ctx: &Ctx) -> i32 {
     });
     tally.merge(t2);
 
+    // scaling family: a first unit of every length 1..=N (three fillers: no zero and no one byte;
+    // a zero every 7th byte; a one every 5th byte) x both start-code lengths for either unit x
+    // 0-2 bytes of leading junk, followed by a short second unit. Block-wise or word-wise
+    // scanners have their thresholds far beyond the short strings enumerated above.
+    let scale_n = if ctx.thorough { 1100 } else { 300 };
+    let lens: Vec<usize> = (1..=scale_n).collect();
+    let t2b = par_items(&lens, ctx.seed, |idx, &l, t| {
+        let mut k = 0u64;
+        for filler in 0..3 {
+            let body: Vec<u8> = (0..l)
+                .map(|i| match filler {
+                    0 => 0x41,
+                    1 => if i % 7 == 6 { 0x00 } else { 0x42 },
+                    _ => if i % 5 == 4 { 0x01 } else { 0x43 },
+                })
+                .collect();
+            for sc1 in [3usize, 4] {
+                for sc2 in [3usize, 4] {
+                    for junk in 0..3usize {
+                        let mut s = vec![0x09; junk];
+                        s.extend(std::iter::repeat(0u8).take(sc1 - 1));
+                        s.push(1);
+                        s.extend(&body);
+                        s.extend(std::iter::repeat(0u8).take(sc2 - 1));
+                        s.push(1);
+                        s.extend([0x68, 0xee, 0x3c]);
+                        k += 1;
+                        t.count("scaling_strings", 1);
+                        judge_string(&s, (15_000 + idx as u64, k), t);
+                        if junk == 0 {
+                            judge_through_muxer(&s, (15_000 + idx as u64, k), t);
+                        }
+                    }
+                }
+            }
+        }
+    });
+    tally.merge(t2b);
+
     // ADTS: every 13-bit frame length x protection x buffer length x header-field variant
     let mut aitems = vec![];
     for protected in [false, true] {
@@ -288,8 +327,8 @@ pub fn check(ctx: &Ctx) -> i32 {
         &tally,
         Meta {
             level: "exploration",
-            rule: format!("every byte string of length <= {l3} over {{00,01,02}} and <= {l5} over {{00,01,03,65,FF}} through AnnexBNalIter, annexb_to_avcc and hevc_annexb_to_hvcc, compared with a reference splitter written from the statement (occurrences of 00 00 01, each absorbing one preceding unconsumed 00); every string of length <= {mux_len} over {{00,01,02}} additionally submitted as a delta frame to an H.264 and an H.265 muxer and the stored sample read back; {ncons} constructive inputs (all lists of <= 3 units over bodies {{1 byte, ending 00, ending 00 00, containing 00 00 03, empty}} x 3/4-byte start code per unit x leading {{none, 09, 00, 00 00}} x 0-2 trailing zeros); ADTS: all 8192 frame lengths x protection flag x buffer length {{fl-1, fl, fl+1, fl+9}} x 3 header-field variants through write_audio + finish, stored sample read back. Distinct by output bytes."),
-            bound: format!("strings <= {l3} / {l5} bytes; ADTS exhaustive in frame length"),
+            rule: format!("every byte string of length <= {l3} over {{00,01,02}} and <= {l5} over {{00,01,03,65,FF}} through AnnexBNalIter, annexb_to_avcc and hevc_annexb_to_hvcc, compared with a reference splitter written from the statement (occurrences of 00 00 01, each absorbing one preceding unconsumed 00); every string of length <= {mux_len} over {{00,01,02}} additionally submitted as a delta frame to an H.264 and an H.265 muxer and the stored sample read back; {ncons} constructive inputs (all lists of <= 3 units over bodies {{1 byte, ending 00, ending 00 00, containing 00 00 03, empty}} x 3/4-byte start code per unit x leading {{none, 09, 00, 00 00}} x 0-2 trailing zeros); a scaling family (first unit of every length 1..={scale_n} x 3 fillers x 3/4-byte start codes x 0-2 junk bytes, through the converters and the muxers); ADTS: all 8192 frame lengths x protection flag x buffer length {{fl-1, fl, fl+1, fl+9}} x 3 header-field variants through write_audio + finish, stored sample read back. Distinct by output bytes."),
+            bound: format!("strings <= {l3} / {l5} bytes; unit lengths 1..={scale_n}; ADTS exhaustive in frame length"),
             exhaustive: true,
             assumptions: vec!["the reference splitter (oracle/src/refmodel.rs) is the statement's definition".into()],
             extra: json!({}),
